@@ -50,7 +50,13 @@ static int c08_async_send(uv_async_t* a);
  * (marker queued twice / request queued twice = queue corruption) */
 static const char* c08_node_linked(struct uv__queue* q);
 static void c08_queue_insert_tail(struct uv__queue* h, struct uv__queue* q) {
-  const char* where = c08_node_linked(q);
+  const char* where;
+  if (h->next == NULL || h->prev == NULL) {
+    printf("MON uninit-pool-use insert into a queue that was never initialised (pool used before/while it is set up)\n");
+    fflush(stdout);
+    _exit(3);
+  }
+  where = c08_node_linked(q);
   if (where != NULL) {
     printf("MON queue-double-insert node already linked in %s is inserted again (queue corruption)\n", where);
     fflush(stdout);
@@ -88,7 +94,8 @@ static struct item IT[MAXITEMS];
 static int nitems;
 static struct lp LP[MAXLOOPS];
 static int nloops, nworkers;
-static int once_done;
+static int once_state;            /* 0 not run, 1 running, 2 done */
+static struct th* once_owner;
 static int sem_count;
 static struct th* WK[MAXTH];
 static int nwk_created;
@@ -123,9 +130,11 @@ static const char* c08_node_linked(struct uv__queue* q) {
 /* ------------------------------------------------------------------ call-outs */
 static void c08_mutex_lock(uv_mutex_t* m) { sched_lock(m); }
 static void c08_mutex_unlock(uv_mutex_t* m) { sched_unlock(m); }
-static int c08_mutex_init(uv_mutex_t* m) { mx_reg(m, "g"); return 0; }
+/* the pool's one-time initialisation run by a loop thread (lazy mode) has stop points of its own */
+static void init_stop(void) { if (self != NULL && self->kind == K_LOOP) stop_point(ST_INIT); }
+static int c08_mutex_init(uv_mutex_t* m) { init_stop(); mx_reg(m, "g"); return 0; }
 static void c08_mutex_destroy(uv_mutex_t* m) { (void) m; }
-static int c08_cond_init(uv_cond_t* c) { (void) c; return 0; }
+static int c08_cond_init(uv_cond_t* c) { (void) c; init_stop(); return 0; }
 static void c08_cond_destroy(uv_cond_t* c) { (void) c; }
 static void c08_cond_wait(uv_cond_t* c, uv_mutex_t* m) { (void) c; sched_cond_wait(m); }
 static void c08_cond_signal(uv_cond_t* c) { (void) c; sched_cond_signal(); }
@@ -138,7 +147,7 @@ static int c08_thread_create_ex(uv_thread_t* tid, const uv_thread_options_t* p, 
   return 0;
 }
 static int c08_thread_join(uv_thread_t* tid) { (void) tid; return 0; }
-static int c08_sem_init(uv_sem_t* s, unsigned v) { (void) s; sem_count = v; return 0; }
+static int c08_sem_init(uv_sem_t* s, unsigned v) { (void) s; init_stop(); sem_count = v; return 0; }
 static void c08_sem_destroy(uv_sem_t* s) { (void) s; }
 /* worker start-up (:63): post, then stop before the first lock */
 static void c08_sem_post(uv_sem_t* s) {
@@ -150,14 +159,29 @@ static void c08_sem_post(uv_sem_t* s) {
 static void c08_sem_wait(uv_sem_t* s) {
   int i;
   (void) s;
+  if (self != NULL) {                 /* lazy mode: the controller starts the next worker for us */
+    while (sem_count == 0) stop_point(ST_SEMWAIT);
+    sem_count--;
+    return;
+  }
   for (i = 0; sem_count == 0 && i < nwk_created; i++)
     if (WK[i]->state == ST_NEW) resume(WK[i]);
   if (sem_count == 0) { printf("MON init: semaphore never posted\n"); fflush(stdout); abort(); }
   sem_count--;
 }
+/* pthread_once: the first caller runs cb, callers arriving meanwhile wait until it has returned */
 static void c08_once(uv_once_t* g, void (*cb)(void)) {
   (void) g;
-  if (!once_done) { once_done = 1; cb(); }
+  if (once_state == 2) return;
+  if (once_state == 1) {
+    if (self == once_owner) return;
+    while (once_state != 2) stop_point(ST_ONCE);
+    return;
+  }
+  once_state = 1;
+  once_owner = self;
+  cb();
+  once_state = 2;
 }
 static int c08_async_send(uv_async_t* a) {
   struct lp* l = (struct lp*) container_of(a, uv_loop_t, wq_async);
@@ -250,6 +274,7 @@ static void dump_q(char* out, struct uv__queue* h) {
   struct uv__queue* q;
   int k = 0;
   out[0] = 0;
+  if (h->next == NULL) { strcpy(out, "uninit"); return; }
   for (q = h->next; q != h; q = q->next) {
     struct item* it;
     if (++k > MAXITEMS + 2) { tok(out, "CORRUPT"); break; }
@@ -272,6 +297,7 @@ static void dump(void) {
   w[0] = 0;
   for (i = 0; i < nworkers; i++) {
     struct th* t = WK[i];
+    if (t == NULL) { tok(w, "none"); continue; }
     switch (t->state) {
     case ST_START: tok(w, "start"); break;
     case ST_WAIT: tok(w, t->signalled ? "woken" : "wait"); break;
@@ -286,6 +312,8 @@ static void dump(void) {
     struct lp* l = &LP[i];
     const char* ph = l->cmid ? "cmid" : l->phase == P_TOP ? "top" : l->phase == P_DRAINED ? "drained" : "incb";
     if (l->th->state == ST_BLOCKED) ph = "blocked";
+    if (l->th->state == ST_INIT || l->th->state == ST_SEMWAIT) ph = "init";
+    if (l->th->state == ST_ONCE) ph = "oncewait";
     dump_q(b, &l->loop.wq);
     printf(" L%d=%s:q=%s:a%d:r%d", i, ph, b, l->async, (int) l->loop.active_reqs.count);
   }
@@ -302,13 +330,16 @@ static void dump(void) {
 }
 
 /* ------------------------------------------------------------------ controller */
-static void reset(int n, int L) {
+static void reset(int n, int L, int lazy) {
   char buf[16];
   int i;
   th_kill_all();
   if (threads != NULL && threads != default_threads) uv__free(threads);
   threads = NULL; nthreads = 0; idle_threads = 0; slow_io_work_running = 0;
-  once_done = 0; nwk_created = 0; nitems = 0; sem_count = 0;
+  memset(&wq, 0, sizeof(wq));                    /* as in a fresh process: nothing of the pool is set up */
+  memset(&slow_io_pending_wq, 0, sizeof(slow_io_pending_wq));
+  memset(&run_slow_work_message, 0, sizeof(run_slow_work_message));
+  once_state = 0; once_owner = NULL; nwk_created = 0; memset(WK, 0, sizeof(WK)); nitems = 0; sem_count = 0;
   memset(IT, 0, sizeof(IT));
   memset(LP, 0, sizeof(LP));
   trace[0] = events[0] = 0;
@@ -325,14 +356,29 @@ static void reset(int n, int L) {
     l->th = th_new(K_LOOP, i, loop_main, l);
     resume(l->th);                               /* up to its first command fetch */
   }
+  if (lazy) return;                              /* the first submit initialises the pool, under the schedule */
   c08_once(&once, init_once);                    /* what the first uv__work_submit does (:271) */
   if ((int) nthreads != n || nwk_created != n) printf("MON pool size %u, expected %d\n", nthreads, n);
 }
 
 static int runnable(struct th* t) {
+  if (t == NULL) return 0;
+  if (t->state == ST_ONCE) return once_state == 2;
   if (t->state == ST_WAIT) return t->signalled;
   if (t->state == ST_BLOCKED) return t->blocked_on->owner == NULL;
   return t->state != ST_DEAD && t->state != ST_NEW;
+}
+
+/* resume a loop thread; while it runs the pool's initialisation, start the workers it waits for */
+static void run_thread(struct th* t) {
+  int i;
+  resume(t);
+  while (t->state == ST_SEMWAIT) {
+    for (i = 0; i < nwk_created; i++)
+      if (WK[i]->state == ST_NEW) { resume(WK[i]); break; }
+    if (i == nwk_created && sem_count == 0) { printf("MON init-stuck no worker left to post the start-up semaphore\n"); fflush(stdout); _exit(3); }
+    resume(t);
+  }
 }
 
 static int loop_cmd(int l, int cmd, int a) {
@@ -340,8 +386,11 @@ static int loop_cmd(int l, int cmd, int a) {
   if (l < 0 || l >= nloops) return 0;
   t = LP[l].th;
   if (cmd == C_GO) {
-    if (t->state == ST_UNLOCKED || (t->state == ST_BLOCKED && runnable(t))) { resume(t); return 1; }
-    if (t->state == ST_CMD && LP[l].in_cb) { t->cmd = C_GO; resume(t); return 1; }
+    if (t->state == ST_UNLOCKED || t->state == ST_INIT || ((t->state == ST_BLOCKED || t->state == ST_ONCE) && runnable(t))) {
+      run_thread(t);
+      return 1;
+    }
+    if (t->state == ST_CMD && LP[l].in_cb) { t->cmd = C_GO; run_thread(t); return 1; }
     return 0;
   }
   if (t->state != ST_CMD) return 0;
@@ -349,7 +398,7 @@ static int loop_cmd(int l, int cmd, int a) {
   if (cmd == C_CAN && (a < 0 || a >= nitems || IT[a].loop != l || IT[a].dones != 0)) return 0;
   if (cmd == C_DRN && LP[l].in_cb) return 0;
   t->cmd = cmd; t->a = a;
-  resume(t);
+  run_thread(t);
   return 1;
 }
 
@@ -386,8 +435,8 @@ int main(void) {
     int a = 0, b = 0, c = 0, ok = 0;
     if (sscanf(line, "%15s", op) != 1) continue;
     if (!strcmp(op, "cfg")) {
-      if (sscanf(line, "%*s %d %d", &a, &b) != 2 || a < 1 || a > 16 || b < 1 || b > MAXLOOPS) { printf("bad-op\n"); continue; }
-      reset(a, b);
+      if (sscanf(line, "%*s %d %d %7s", &a, &b, k) < 2 || a < 1 || a > 16 || b < 1 || b > MAXLOOPS) { printf("bad-op\n"); continue; }
+      reset(a, b, !strcmp(k, "lazy"));
       dump();
       continue;
     }
